@@ -32,11 +32,12 @@ STYLES = [
     ("shift3", Style(pre_blank=3, blank_between=0, semicolon="mixed")),
     ("crlf", Style(crlf=True)),
     ("trailing-comments", Style(trailing_comments=True)),
+    ("escaped-strings", Style(escaped_strings=True, pre_blank=1)),
     ("indent2", Style(indent="  ")),
     ("indent0", Style(indent="")),
     ("tab", Style(indent="\t")),
 ]
-CONFORMING_STYLES = {"conforming", "semicolons", "shift1", "shift3", "crlf", "trailing-comments"}
+CONFORMING_STYLES = {"conforming", "semicolons", "shift1", "shift3", "crlf", "trailing-comments", "escaped-strings"}
 
 
 def all_roots():
@@ -76,11 +77,11 @@ def variants(tier):
                         break
         for kind, did, sub in targets:
             if kind == "nozero":
-                for si in (0, 3):
+                for si in (0, 3, 6):
                     out.append((ri, ("nozero", did, sub, "nozero"), False, si, False))
                 continue
             for pname, fn in PERTURB[kind]:
-                for si in ((0, 2, 3) if tier == "thorough" else (0, 3)):
+                for si in ((0, 2, 3, 6) if tier == "thorough" else (0, 3, 6)):
                     out.append((ri, (kind, did, sub, pname), si == 3, si, False))
     return out
 
@@ -292,6 +293,7 @@ def run_errors(unit):
             d = sc.sub("e%d" % k)
             files, target, span = c08.materialise(case)
             for fn, tx in files.items():
+                os.makedirs(os.path.dirname(os.path.join(d, fn)), exist_ok=True)
                 with open(os.path.join(d, fn), "w") as f:
                     f.write(tx)
             out.count("states")
@@ -314,7 +316,7 @@ def run_errors(unit):
                 continue  # acceptance is C08's business
             ef, el = os.path.basename(err.filepath or ""), err.lineno
             lo_, hi_ = span
-            ok = (ef == target and lo_ <= el <= hi_) or (case["tag"] == "import:cycle" and ef == "cyc.bitproto")
+            ok = (ef == target and lo_ <= el <= hi_) or (case["tag"].startswith("import:cycle") and ef in ("cyc.bitproto", "cyc2.bitproto"))
             if not ok:
                 out.violation(check="error-position", symptom="wrong_location", site="errors:" + type(err).__name__, features=[], sig_features=[case["tag"]],
                               desc="%s at %s shift=%d: %s cites %s:L%s, construct on %s lines %d..%d" % (case["tag"], case["slot"][:2], case["shift"], type(err).__name__, ef, el, target, lo_, hi_),
